@@ -62,6 +62,7 @@ type pathCtx struct {
 	events    []pathEvent
 	known     map[string]*expr
 	mapAll    bool
+	mapEpoch  int
 	steps     int
 	lastModel model
 	depth     int
